@@ -338,8 +338,22 @@ func recordPrefixGlobals(p *core.Program) map[string]bool {
 func c07Schema(r *core.Run) {
 	p := r.P
 	n := 0
+	opensDB := func(f *ssa.Function) bool {
+		return len(core.Calls(f, func(nm string, _ *ssa.CallCommon) bool { return nm == pebblePath+".Open" })) > 0
+	}
 	for _, fn := range p.FuncsIn("pkg/storage/pebbledb") {
-		if len(core.Calls(fn, func(nm string, _ *ssa.CallCommon) bool { return nm == pebblePath+".Open" })) == 0 {
+		// the open path: the function that opens the database, directly or through a helper of the package
+		opens := opensDB(fn)
+		if !opens {
+			core.InstrsOf(fn, func(in ssa.Instruction) {
+				if c := core.CallOf(in); c != nil {
+					if g := core.StaticCallee(c); g != nil && p.IsProdFunc(g) && g.Pkg == fn.Pkg && g.Blocks != nil && opensDB(g) {
+						opens = true
+					}
+				}
+			})
+		}
+		if !opens {
 			continue
 		}
 		fnm := core.FuncName(fn)
